@@ -116,6 +116,7 @@ func runC20(c *Ctx) {
 	R.Require("C20.started", 8)
 	R.Require("C20.scale", 8)
 	R.Require("C20.window", 8)
+	R.Require("C20.units", 2)
 	fns := P.ModuleFuncs("kxps")
 	for _, f := range fns {
 		R.Funcs[core.QualName(f)] = true
@@ -191,6 +192,16 @@ func runC20(c *Ctx) {
 				"rate division guarded: growth > 0, divisor "+denWhy,
 				fmt.Sprintf("a rate is computed by a division that is not guarded (growth > 0 guard: %v, positive divisor: %v): a stalled or backwards counter would yield a negative, infinite or NaN rate", numOK, denOK),
 				map[string]interface{}{"numerator": core.Path(num), "divisor": core.Path(den)})
+			// C20.units: rate = growth x K / (elapsed / U) must be per second: K x U = 1 s, and the
+			// integer division of the elapsed time must not be coarser than a millisecond.
+			if k, u, shape := rateUnits(bo); shape != "" {
+				okU := k*u == 1e9 && u <= 1e6
+				R.Check(okU, "C20.units", key+"|per-second", P.InstrPos(bo),
+					fmt.Sprintf("rate is per second: growth x %d / (elapsed / %dns)", k, u),
+					fmt.Sprintf("the rate is not growth per second at millisecond (or finer) granularity: growth x %d / (elapsed / %dns), K x U = %dns (expected 1e9ns, U <= 1e6ns): sub-unit elapsed time is truncated away and the rate is overstated", k, u, k*u), nil)
+			} else {
+				R.Note("C20.units", key+"|per-second", P.InstrPos(bo), "rate formula shape not recognised for the unit check (no obligation)")
+			}
 			// the complementary branch of the growth guard yields constant 0
 			for _, g := range core.Guards(bo.Block()) {
 				a, _ := core.AtomOf(g)
@@ -389,6 +400,39 @@ func runC20(c *Ctx) {
 				"window "+f+" is sampled", "window "+f+" is never sampled: its rate stays 0", nil)
 		}
 	}
+}
+
+// rateUnits recognises  float(x) [* K] / float(int(d / U))  and returns K (default 1) and U.
+func rateUnits(div *ssa.BinOp) (k, u int64, shape string) {
+	k = 1
+	// numerator: optional multiplication by a constant
+	n := core.StripConv(div.X)
+	if m, ok := n.(*ssa.BinOp); ok && m.Op == token.MUL {
+		if f, isC := constFloat(m.Y); isC {
+			k = int64(f)
+		} else if f, isC := constFloat(m.X); isC {
+			k = int64(f)
+		}
+	}
+	// denominator: conversions down to an integer division by a constant
+	d := div.Y
+	for i := 0; i < 8; i++ {
+		d = core.StripConv(d)
+		if cv, ok := d.(*ssa.Convert); ok {
+			d = cv.X
+			continue
+		}
+		break
+	}
+	q, ok := d.(*ssa.BinOp)
+	if !ok || q.Op != token.QUO {
+		return 0, 0, ""
+	}
+	c, isC := core.ConstInt(q.Y)
+	if !isC || c <= 0 {
+		return 0, 0, ""
+	}
+	return k, c, "int-div"
 }
 
 func constFloat(v ssa.Value) (float64, bool) {
